@@ -1,5 +1,5 @@
 From Coq Require Import String List NArith.
-From JS Require Import Base.Wire Extract.RunOMap Extract.RunNum Extract.RunGuess Extract.RunJson Extract.RunRegex Extract.RunDiag Extract.RunRec Extract.RunAllOf Extract.RunRefs Extract.RunEnum Extract.RunRules.
+From JS Require Import Base.Wire Extract.RunOMap Extract.RunNum Extract.RunGuess Extract.RunJson Extract.RunRegex Extract.RunDiag Extract.RunRec Extract.RunAllOf Extract.RunRefs Extract.RunEnum Extract.RunRules Extract.RunPlain.
 Import ListNotations.
 
 (* one case line -> one result line; the first token names the model *)
@@ -18,6 +18,7 @@ Definition dispatch (line : bytes) : bytes :=
     else if beqb cmd B"refs" then run_refs args
     else if beqb cmd B"enum" then run_enum args
     else if beqb cmd B"rules" then run_rules args
+    else if beqb cmd B"plain" then run_plain args
     else bad_case
   | [] => bad_case
   end.
